@@ -30,6 +30,8 @@ GenLane == LET c == Pick(1..8) IN
 GenAmt == NumW(Pick(0..(8 * W)), 8)                             \* scalar shift amount (8-byte little endian)
 GenRot == NumW(Pick(0..(3 * 8 * W)), 8)
 Offsets == {p \in 1..MemSize : InMem(p) /\ (p - 1) % W = 0}
+\* a small signed number as an index lane
+IdxLane(v) == IF v >= 0 THEN NumW(v, W) ELSE NegW(NumW(0 - v, W))
 
 GBin   == {"add", "sub", "mul", "and", "or", "xor", "min", "max", "average", "midpoint"}
 GUn    == {"neg", "not", "popcount", "countl_zero", "countl_one", "countr_zero", "countr_one", "byteswap", "inc", "dec"}
@@ -39,7 +41,7 @@ GKBin  == {"m_and", "m_or", "m_xor", "m_land", "m_lor"}
 Fallback == \E r \in {Pick(VRegs)}, i \in {Pick(1..N)}, x \in {GenLane} : SetVec(r, [V[r] EXCEPT ![i] = x])
 
 GenNext ==
-  \E c \in {Pick(1..24)}, d \in {Pick(VRegs)}, a \in {Pick(VRegs)}, b \in {Pick(VRegs)},
+  \E c \in {Pick(1..27)}, d \in {Pick(VRegs)}, a \in {Pick(VRegs)}, b \in {Pick(VRegs)},
      k \in {Pick(KRegs)}, ka \in {Pick(KRegs)}, kb \in {Pick(KRegs)} :
     CASE c = 1  -> SetVec(d, [i \in 1..N |-> GenLane])
       [] c = 2  -> KSet(k, [i \in 1..N |-> Pick(BOOLEAN)])
@@ -59,6 +61,10 @@ GenNext ==
       [] c = 20 -> \E I \in {Pick(0..(N - 1))}, x \in {GenLane} : VInsert(d, a, I, x)
       [] c \in {21, 22} -> \E p \in {Pick(Offsets)}, n \in {Pick(0..(N + 1))} : Load(d, p, n)
       [] c = 23 -> \E p \in {Pick(Offsets)}, n \in {Pick(0..(N + 1))} : Store(a, p, n)
+      \* an index register is written first (SetVec with in-range indices), the transfer follows in the next step
+      [] c = 25 /\ W >= 4 -> \E p \in {Pick(Offsets)} : SetVec(b, [i \in 1..N |-> IdxLane(Pick(0..(ElemCount - 1)) - (p - 1) \div W)])
+      [] c = 26 /\ W >= 4 -> \E p \in {Pick(Offsets)}, n \in {Pick(0..(N + 1))} : IF GSDom(p, b, n) THEN Gather(d, p, b, n) ELSE Fallback
+      [] c = 27 /\ W >= 4 -> \E p \in {Pick(Offsets)}, n \in {Pick(0..(N + 1))} : IF ScatterDom(p, b, n) THEN Scatter(a, p, b, n) ELSE Fallback
       [] OTHER  -> SetEnv(Pick(Modes))
 GenSpec == Init /\ [][GenNext]_vars
 
